@@ -160,7 +160,7 @@ def check_runs_stub(h: Harness):
         amb = sc.ambiguous(step)
         ints = [rng.randrange(0, 30) for _ in range(100 * gens)]
         floats = [rng.randrange(0, 1000)] * (60 * gens) if amb else [rng.randrange(0, 1000) for _ in range(60 * gens)]
-        rec = sc.GenRecorder()
+        rec = sc.GenRecorder(limit=4 * (gens + 1) * n + 100)
         tracker = MultiObjectiveProgressTracker(problem, SequentialEvaluator(), recorders=[rec])
         gp = GeneticProgramming(problem=problem, budget=sc.Generations(gens), representation=rep, random=TwoStreamSource(ints, floats),
                                 tracker=tracker, population_size=n, population_initializer=sc.Given(inds), step=sc.real_step(step))
@@ -189,11 +189,11 @@ def check_runs_tree(h: Harness):
         configs.append((step, rng.randint(2, 14)))
     for step, n in configs:
         g, r, rep = sc.tree_setup(rng.randrange(1000))
+        gens = h.n(6, 40)
         minimize = rng.random() < 0.5
         problem = SingleObjectiveProblem(lambda p: float(sc.count_nodes(p) % 7), minimize=minimize)
-        rec = sc.GenRecorder()
+        rec = sc.GenRecorder(limit=4 * (gens + 1) * n + 100)
         tracker = SingleObjectiveProgressTracker(problem, SequentialEvaluator(), recorders=[rec])
-        gens = h.n(6, 40)
         tree = sc.default_step_tree() if step is None else step
         real = default_generic_programming_step() if step is None else sc.real_step(step)
         slots = elite_slots(tree, n)
